@@ -411,7 +411,9 @@ def run_driver(case_texts: list[str], shards: int = 1) -> list[dict]:
             path = os.path.join(tmpdir, f"cases_{i}.sx")
             with open(path, "w", encoding="latin-1", errors="strict") as f:
                 f.write("\n".join(ch))
-            procs.append(subprocess.Popen([DRIVER, path], stdout=subprocess.PIPE, stderr=subprocess.PIPE))
+            # large documents make the extracted (non tail-recursive) list functions deep: lift the stack limit
+            procs.append(subprocess.Popen(["bash", "-c", 'ulimit -s unlimited 2>/dev/null || ulimit -s 1000000; exec "$0" "$1"', DRIVER, path],
+                                          stdout=subprocess.PIPE, stderr=subprocess.PIPE))
         outs = []
         for p in procs:
             o, e = p.communicate()
